@@ -173,6 +173,14 @@ func deepClone(rv reflect.Value) reflect.Value {
 		}
 		return newStruct
 
+	case reflect.Interface:
+		if rv.IsNil() {
+			return rv
+		}
+		newValue := reflect.New(rv.Type()).Elem()
+		newValue.Set(deepClone(rv.Elem()))
+		return newValue
+
 	case reflect.Slice:
 		if rv.IsNil() {
 			return reflect.Zero(rv.Type())
